@@ -12,8 +12,11 @@ class EngB:
         s.vars = {}
         s.validate = validate; s.vopts = vopts or {}
         s._real = None
+        import threading
+        s._vlock = threading.RLock()
 
     def variant(s, tag, only=None, uf=None, uffunc=None, ubcheck=False):
+      with s._vlock:
         if tag not in s.vars:
             hp, bp, info = s.u.gen(tag, only=only, uf=uf, uffunc=uffunc, ubcheck=ubcheck)
             s.vars[tag] = (hp, bp, info)
@@ -43,4 +46,14 @@ class EngB:
         kw.setdefault('backends', ('minisat', 'kissat'))
         kw.setdefault('unwind', 2)
         m = mode or ('exact' if not (info['mode']['uf'] or info['mode']['uffunc']) else 'uf(%s)' % ','.join(info['mode']['uf'] + info['mode']['uffunc']))
-        return CbmcOb(oid, [H, bp] + list(extra_files), func, defines=d, incs=(s.chk.wd,), desc=desc, engine='B', mode=m, replay_link=(s.real(),), **kw)
+        o = CbmcOb(oid, [H, bp] + list(extra_files), func, defines=d, incs=(s.chk.wd,), desc=desc, engine='B', mode=m, replay_link=(s.real(),), **kw)
+        if (info['mode']['uf'] or info['mode']['uffunc']) and not info['mode']['ubcheck']:
+            # every abstracted obligation can be re-decided on the exact IEEE encoding; the variant is generated only if a counterexample
+            # of the abstraction fails to replay natively (vf/runner.py), so it costs nothing on a tree where the obligation holds
+            def lazy(oid=oid, harness=harness, func=func, desc=desc, defines=defines, extra_files=extra_files, kw=dict(kw)):
+                k2 = dict(kw); k2['timeout'] = max(600, k2.get('timeout', 0)); k2['backends'] = ('kissat', 'cadical', 'minisat')
+                fb = s.ob(oid, harness, func, desc, variant='exact', defines=tuple(x for x in defines if x != 'UF_ARITH' and x != 'UF_DS'), extra_files=extra_files, **k2)
+                fb.fallback_factory = None
+                return fb
+            o.fallback_factory = lazy
+        return o
